@@ -367,8 +367,10 @@ impl GrafeoDB {
     ) -> Result<QueryResult> {
         use crate::query::processor::{QueryLanguage, QueryProcessor};
 
-        // Create processor
-        let processor = QueryProcessor::for_lpg(Arc::clone(&self.store));
+        // Create processor on the database's own transaction manager, so that the query is
+        // planned at the current epoch (a private manager would always report epoch 0)
+        let processor =
+            QueryProcessor::for_lpg_with_tx(Arc::clone(&self.store), Arc::clone(&self.tx_manager));
         processor.process(query, QueryLanguage::Cypher, Some(&params))
     }
 
@@ -1988,6 +1990,27 @@ impl FromValue for bool {
 #[cfg(test)]
 mod tests {
     use super::*;
+
+    #[cfg(feature = "cypher")]
+    #[test]
+    fn test_cypher_with_params_sees_later_commits() {
+        let db = GrafeoDB::new_in_memory();
+        let mut session = db.session();
+        // first commit: the manager's epoch becomes 1
+        session.begin_tx().unwrap();
+        session.commit().unwrap();
+        // a transaction that begins at epoch 1 and commits a node
+        session.begin_tx().unwrap();
+        session.create_node(&["Person"]);
+        session.commit().unwrap();
+
+        let plain = db.execute_cypher("MATCH (n:Person) RETURN n").unwrap();
+        let with_params = db
+            .execute_cypher_with_params("MATCH (n:Person) RETURN n", std::collections::HashMap::new())
+            .unwrap();
+        assert_eq!(plain.rows.len(), 1);
+        assert_eq!(with_params.rows.len(), plain.rows.len());
+    }
 
     #[test]
     fn test_create_in_memory_database() {
